@@ -46,6 +46,7 @@ def blocks(tier):
         for first in range(core - k + 1):
             yield ("case", k, first)
     yield ("napp",)
+    yield ("osm",)
     for k in ((1, 2) if tier == "quick" else (1, 2, 3)):
         for first in range(core - k + 1):
             yield ("names", k, first)
@@ -88,6 +89,13 @@ def expand(block, tier):
                 for extra in [None, *core]:
                     for dl in DEFLANGS[:2]:
                         yield {"cells": [list(extra)] if extra else [], "dl": dl, "ref": ref, "napp": list(ls), "rev": bool(len(ls) % 2)}
+        return
+    if block[0] == "osm":
+        # an OSM question whose tags carry (un)translated labels, alone and next to a translated question
+        for qlab in (["label"], ["label::en", "label::fr"]):
+            for tlab in (["label"], ["label::en"], ["label::en", "label::fr"]):
+                for extra in (False, True):
+                    yield {"osm": {"q": qlab, "t": tlab, "extra": extra}, "cells": [], "dl": None, "ref": False}
         return
     if block[0] == "names":
         _, k, first = block
@@ -200,14 +208,25 @@ def build_case(case, **kw):
     return wb, ckw
 
 
+def build_osm(o):
+    q = {"type": "osm o", "name": "q", **{h: f"Q {h}" for h in o["q"]}}
+    tags = [{"list_name": "o", "name": "building", **{h: f"B {h}" for h in o["t"]}}, {"list_name": "o", "name": "kind", **{h: f"K {h}" for h in o["t"][:1]}}]
+    rows = [q]
+    if o["extra"]:
+        rows.append({"type": "text", "name": "t", "label::en": "T", "label::fr": "Tf"})
+    return {"survey": rows, "osm": tags}, {}
+
+
 def check_one(case):
-    wb, kw = build_case(case)
+    wb, kw = build_osm(case["osm"]) if case.get("osm") else build_case(case)
     out = run_convert(wb, **kw)
-    ntr = len(wb["survey"]) + len(wb["choices"]) + len(case["cells"])
+    ntr = len(wb["survey"]) + len(wb.get("choices", ())) + len(case["cells"])
     if out.kind == "crash":
         return {"outcome": "crash", "nt": False, "viol": [], "tr": ntr}
     if out.kind == "reject":
         return {"outcome": "reject", "nt": False, "viol": [], "tr": ntr, "unexp": True, "why": out.msg[:160]}
     obs = O.Obs(out.xform)
     pr, nlang, nrefs = invariant_problems(obs, out.xform, case["dl"])
+    if case.get("osm"):
+        pr = [(f"{sig}:osm-tag" if "/q/" in str(det) else sig, det) for sig, det in pr]
     return {"outcome": "ok", "nt": (nlang >= 2 or nrefs >= 1) and not pr, "viol": pr, "tr": ntr}
